@@ -654,6 +654,11 @@ func rateFor(tok int, d int64) int64 {
 }
 
 func genConstLeaf(r *vh.Rand) *node {
+	if r.Chance(1, 16) {
+		// the constructor called with a negative rate (the configuration cannot say so, code can): NewConst
+		// clamps it to zero - a part that takes its time and holds no token
+		return &node{kind: "const", p: []int64{-int64(r.PickInt([]int{1, 500, 2000})), int64(r.PickInt([]int{1000000, 1000000000}))}}
+	}
 	if r.Bool() {
 		ops := int64(r.PickInt([]int{0, 500, 1000, 2000, 3500, 10000}))
 		dur := int64(r.PickInt([]int{1000000, 500000000, 1000000000, 2500000000, 3000000000}))
